@@ -29,9 +29,13 @@ func envFromFlags(fs *flag.FlagSet) *Env {
 }
 
 func simProcessSetup() {
+	if os.Getenv("VORESIM_TRACE") != "" {
+		simrt.Trace = true
+	}
 	runtime.GOMAXPROCS(1)
 	debug.SetMaxStack(256 << 20)
 	debug.SetGCPercent(200)
+	simrt.DefaultHeapLimit = 3 << 30
 }
 
 func hasKey(vs []Violation, key string) bool {
@@ -43,10 +47,26 @@ func hasKey(vs []Violation, key string) bool {
 	return false
 }
 
+var lastSimLimit string
+
 func executeRun(c Check, phase string, index uint64, t *Tape, world string, stats map[string]uint64, replay bool) *RunResult {
 	ctx := &RunCtx{T: t, Phase: phase, Index: index, World: world, Stats: stats, Race: raceEnabled, Replay: replay}
+	sawSoftHeap = false
 	res := c.Run(ctx)
 	simrt.Stop()
+	if sawSoftHeap {
+		stats["discarded_heap_safety_limit"]++
+		res.Violations = nil
+		res.Nontrivial = false
+		runtime.GC()
+	}
+	if simrt.SimLimit != "" {
+		// the simulator ran out of a fixed resource: no verdict on this run
+		stats["simulator_limit_runs"]++
+		lastSimLimit = simrt.SimLimit
+		res.Violations = nil
+		res.Nontrivial = false
+	}
 	return res
 }
 
@@ -150,6 +170,7 @@ func workerMain(args []string) int {
 		}
 	}
 	wo.WallS = time.Since(t0).Seconds()
+	wo.SimLimit = lastSimLimit
 	if err := writeJSON(*out, wo); err != nil {
 		fmt.Fprintln(os.Stderr, "write:", err)
 		return 2
